@@ -184,6 +184,7 @@ NEUTRAL = {
                               "new_start = z.start_time + (-shift) * z.dt", ["C01", "C12"]),
     "n-c20-keep-floordiv": ("pulsarbat/contrib/misc.py", "z = z[: len(z) - len(z) % nperseg, :]",
                             "z = z[: len(z) // nperseg * nperseg, :]", ["C20"]),
+    "n-c10-centre-halves": ("pulsarbat/transforms/transforms.py", 'kw["center_freq"] = (f0 + f1) / 2', 'kw["center_freq"] = f0 / 2 + f1 / 2', ["C10"]),
     "n-dt-mul": ("pulsarbat/core.py", "self.start_time + s.start / self.sample_rate",
                  "self.start_time + s.start * (1 / self.sample_rate)", ["C01"]),
     "n-guess-1.5N": ("pulsarbat/utils.py", "    f7, guess = 1, 2 * N\n", "    f7, guess = 1, N + N // 2 + 1\n", ["C18"]),
